@@ -95,6 +95,18 @@ class _Rewriter(ast.NodeTransformer):
             return call
         return node
 
+    def visit_Subscript(self, node):
+        # `table[i]` with a symbolic index: CPython would ask the proxy for a concrete __index__
+        # (one path per value); the shim turns it into one lookup term per shape of entry
+        self.generic_visit(node)
+        if not isinstance(node.ctx, ast.Load):
+            return node
+        sl = node.slice
+        if isinstance(sl, (ast.Slice, ast.Tuple)) or (isinstance(sl, ast.Constant) and not isinstance(sl.value, bool)):
+            return node  # slices and constant subscripts need no help
+        self.counts["idx"] = self.counts.get("idx", 0) + 1
+        return ast.Call(func=ast.Name("__sx_idx__", ast.Load()), args=[node.value, sl], keywords=[])
+
     def visit_ClassDef(self, node):
         self.generic_visit(node)
         for i, b in enumerate(node.bases):
